@@ -83,8 +83,10 @@ func c09CallMany(w *sim.World, s *sim.Sched) *ugo.Function {
 	}}
 }
 
-const c09Followup = sim.Prelude + "a := 0\nfor i := 0; i < 5; i++ { a += i }\nf := func(x) { return x * 2 }\nreturn [a, call(f, 21)]\n"
-const c09FollowupWant = "value=[i:10,i:42] hist=[]"
+// the follow-up uses pooled and non-pooled child VMs and strings.Map (which acquires from the pool):
+// a child VM recycled from the aborted run must be as good as a new one
+const c09Followup = sim.Prelude + "a := 0\nfor i := 0; i < 5; i++ { a += i }\nf := func(x) { return x * 2 }\ns := import(\"strings\")\nreturn [a, call(f, 21), call(f, 4), call(f, 5), s.Map(func(c) { return c + 1 }, \"ab\")]\n"
+const c09FollowupWant = "value=[i:10,i:42,i:8,i:10,s:\"bc\"] hist=[]"
 
 // enumerated placement: run R alone until its k-th reported event, then the
 // aborter until its j-th event, then R for m events, then the aborter to the
@@ -188,7 +190,7 @@ func c09VM(rc *sim.RunCtx, shapeIdx int, pooledAll bool, pl *c09Placement) {
 		if s.Killed() {
 			return
 		}
-		w2 := sim.NewWorld(&sim.WorldSpec{Name: "w2"}, nil)
+		w2 := sim.NewWorld(&sim.WorldSpec{Name: "w2", Pooled: []bool{true, false, true}, Repeat: []int{0, 0, 0}}, nil)
 		vm.SetBytecode(bc2)
 		r2, e2 := vm.Run(w2.Globals)
 		follow = sim.MakeOutcome(r2, e2, w2.Hist)
@@ -295,6 +297,10 @@ func c09VM(rc *sim.RunCtx, shapeIdx int, pooledAll bool, pl *c09Placement) {
 		return
 	}
 	rc.Steps = s.TotalLoops()
+	if s.Degraded() {
+		rc.Degraded = true
+		rc.Probe("degraded-schedule(un-modelled blocking met)")
+	}
 	rc.Logf("shape=%s trace=%016x switches=%d err=%v follow=%s recycled=%d", shape.name, s.TraceHash(), s.Switches, runErr != nil, follow, pool.Recycled)
 	if pool.Recycled > 0 {
 		rc.Probe("child-vm-recycled")
@@ -464,6 +470,10 @@ func c09Eval(rc *sim.RunCtx) {
 		return
 	}
 	rc.Steps = s.TotalLoops()
+	if s.Degraded() {
+		rc.Degraded = true
+		rc.Probe("degraded-schedule(un-modelled blocking met)")
+	}
 	rc.Fault("cancel")
 	rc.Probe("cancel-while-eval-at:" + pointName(lastMainAtCancel))
 	rc.Logf("eval shape=%s trace=%016x err=%v follow=%s", shape.name, s.TraceHash(), err, follow)
